@@ -133,7 +133,7 @@ def check_span(ctx, syn, res):
     if stmts and stmts[0]["k"] == "Let" and stmts[0].get("else") is not None and stmts[0]["pat"]["k"] == "PTupleStruct" and stmts[0]["pat"]["path"]["segs"] == ["Some"] and ident_of(stmts[0]["init"]) == tokp:
         binder = stmts[0]["pat"]["elems"][0]["name"]
         els = unparse(nodes(stmts[0]["else"], "Return")[0]["expr"]).replace(" ", "") if nodes(stmts[0]["else"], "Return") else ""
-        from ..syn import inline_lets, simple_lets
+        from ..syn import inline_lets, simple_lets, norm_owned_text
         lets = simple_lets(stmts[1:])
         final = stmts[-1]
         fe = inline_lets(final.get("expr"), lets) if final["k"] == "ExprStmt" else None
@@ -144,7 +144,7 @@ def check_span(ctx, syn, res):
         ends = ["ByteIndex(%s+%s)" % (S, Ln), "ByteIndex(%s+%s)" % (Ln, S)]
         wants = ["KikiErr::Parse(%s,%s[%s..%s].to_string(),%s)" % (S_idx, srcp, S, e_[len("ByteIndex("):-1], e_) for e_ in ends]
         wants += [w.replace(".to_string()", ".to_owned()") for w in wants]
-        ok_shape = ftxt in wants
+        ok_shape = norm_owned_text(ftxt) in [norm_owned_text(w_) for w_ in wants]
         txt = ftxt
         # eof helper
         eof_ok = False
@@ -154,8 +154,8 @@ def check_span(ctx, syn, res):
                 if fn["name"] == hn and impl is None:
                     hp = fn["inputs"][0]["pat"]["name"]
                     ht = unparse(fn["body"]["stmts"][-1]["expr"]).replace(" ", "")
-                    eof_ok = ht == 'KikiErr::Parse(ByteIndex(%s.len()),"".to_string(),ByteIndex(%s.len()))' % (hp, hp)
-        elif els == 'KikiErr::Parse(ByteIndex(%s.len()),"".to_string(),ByteIndex(%s.len()))' % (srcp, srcp):
+                    eof_ok = norm_owned_text(ht) == 'KikiErr::Parse(ByteIndex(%s.len()),"".to_string(),ByteIndex(%s.len()))' % (hp, hp)
+        elif norm_owned_text(els) == 'KikiErr::Parse(ByteIndex(%s.len()),"".to_string(),ByteIndex(%s.len()))' % (srcp, srcp):
             eof_ok = True
         res.inst(rule, "conversion|eof", "%s:%d" % (cpath, cfn["line"]), True, "None => Parse(len, \"\", len): %s" % eof_ok)
         if not eof_ok:
